@@ -310,6 +310,30 @@ func c02Trie(c *core.Ctx, rule string) {
 				}
 				c.Check(guards[k], rule, key+"|"+k+"-empty", ipos(c, pr.Instr), "pruned only when node."+k+" is empty", fmt.Sprintf("a trie node is unlinked although node.%s may still hold other clients' subscriptions", k))
 			}
+			// the key removed from the parent's children is computed the way the keys were created: an element
+			// of strings.Split(filter, "/") (subscribe links every level under exactly these strings)
+			{
+				kset := ssax.BackwardOpt(rawArgs(pr.Instr)[1], func(call *ssa.Call) bool { return true })
+				split, other := false, ""
+				for v := range kset {
+					call, ok := v.(*ssa.Call)
+					if !ok || call.Call.StaticCallee() == nil || call.Call.StaticCallee().Pkg == nil {
+						continue
+					}
+					switch pkgp := call.Call.StaticCallee().Pkg.Pkg.Path(); {
+					case pkgp == "strings" && call.Call.StaticCallee().Name() == "Split":
+						split = true
+					case pkgp == "path" || pkgp == "path/filepath" || (pkgp == "strings" && call.Call.StaticCallee().Name() != "Split"):
+						other = pkgp + "." + call.Call.StaticCallee().Name()
+					}
+				}
+				switch {
+				case other != "":
+					c.Violation(rule, key+"|key-as-created", ipos(c, pr.Instr), fmt.Sprintf("the key under which a trie node is unlinked from its parent is computed with %s, not taken from strings.Split(filter, \"/\") as when the node was linked: for filters the two disagree on (an empty last level as in \"a/b/\") another client's node is unlinked", other))
+				case split:
+					c.OK(rule, key+"|key-as-created", ipos(c, pr.Instr), "key taken from strings.Split(filter, \"/\")")
+				}
+			}
 			// inside a loop that moves the node, the key must move too
 			mArg, kArg := rawArgs(pr.Instr)[0], rawArgs(pr.Instr)[1]
 			if ph := ssax.LoopCarried(mArg); ph != nil && ssax.InLoop(pr.Instr.Block()) {
